@@ -10,7 +10,7 @@ TRANSPARENT_SUFFIX = (
     "::to_owned", "::into", "::from", "::as_str", "::as_bytes", "::as_slice", "::as_mut_slice",
     "::to_string", "::as_deref", "::into_iter", "::iter", "::iter_mut", "::to_vec", "::unsize", "::try_into", "::try_from",
 )
-CONVERTERS = ("read_err", "write_err", "invalid_err", "internal_err")
+CONVERTERS = ("read_err", "write_err", "invalid_err", "internal_err", "context", "with_context")
 
 
 class AnchorMissing(Unusable):
